@@ -494,3 +494,52 @@ def pan8_range_arithmetic(ctx):
                   ('dominated by a comparison of the accumulated width with 63' if ok else
                    'reached without a test of the accumulated width: three 32-bit-wide grouping columns shift by 64'),
                   where(s))
+
+
+# ------------------------------------------------------------------------------------ NUL-7
+LIMITING = ('take', 'skip', 'step_by', 'take_while', 'skip_while', 'split_at', 'split_at_mut', 'chunks', 'get', 'get_mut')
+
+
+def nul7_reused_null_map_reset_completely(ctx):
+    """Streaming operators reuse their output buffers from batch to batch.  A filter that writes null
+    bits with `set` only relies on the reused output bitmap being all zero when a batch starts; the
+    reset loop therefore has to cover the whole bitmap.  A reset limited to `len / 8` bytes of the
+    previous batch (rounded down) keeps the "present" bits of its last, partly used byte, and NULLs of
+    the next batch read as present zeros - only when a partition is longer than `batch_size`, i.e. the
+    result depends on the configured batch size."""
+    from mirlib.astlib import find, walk
+    ctx.rule('NUL-7', 'where a streaming operator zeroes its reused output null map (`for p in map.iter_mut() { *p = 0 }`) '
+                      'the loop covers the whole bitmap: no take / skip / sub-slice on the iterator', floor=2)
+    ast = ctx.ast
+    n = 0
+    for (path, qual, node) in ast.fns:
+        if '/engine/operators/' not in path and not path.startswith('src/engine/operators/'):
+            continue
+        if not node.get('body'):
+            continue
+        for f in find(node, 'for'):
+            body = f.get('body') or {}
+            stmts = body.get('stmts', []) if body.get('k') == 'block' else [body]
+            if len(stmts) != 1:
+                continue
+            e = stmts[0].get('expr', stmts[0]) if isinstance(stmts[0], dict) else {}
+            if e.get('k') != 'assign':
+                continue
+            lhs, rhs = e.get('lhs') or {}, e.get('rhs') or {}
+            if not (lhs.get('k') == 'unary' and lhs.get('op') == '*' and rhs.get('k') == 'lit' and str(rhs.get('int')) == '0'):
+                continue
+            chain = [m.get('method') for m in walk(f.get('iter') or {}) if isinstance(m, dict) and m.get('k') == 'mcall']
+            has_index = any(isinstance(m, dict) and m.get('k') in ('index', 'range') for m in walk(f.get('iter') or {}))
+            if 'iter_mut' not in chain:
+                continue
+            n += 1
+            limited = [m for m in chain if m in LIMITING]
+            short = qual.split('::')[-2] if '::' in qual else qual
+            short = re.sub(r"<(\w+)(?:<[^>]*>)? as VecOperator<'a>>", r'\1', qual.rsplit('::', 1)[0])
+            ctx.check('NUL-7', '%s|reset-covers-whole-map' % short, not limited and not has_index,
+                      'the zeroing loop over the reused buffer %s' % ('covers all of it' if not limited and not has_index else
+                                                                       'is limited by %s: bits beyond the limit survive into the next batch '
+                                                                       '(a NULL then reads as a present 0; visible only when a partition is longer '
+                                                                       'than batch_size)' % (limited or 'a sub-slice')),
+                      '%s:%s' % (path, f.get('l')))
+    ctx.require(n >= 2, 'NUL-7: fewer than 2 zeroing loops over a reused null map in the operators (%d)' % n)
